@@ -208,7 +208,7 @@ Qed.
 Lemma drain_quiet s0 ev : Forall (quiet_ev s0) ev -> forall s1 s2 l ks,
   drain s1 ev = (s2, l, ks) ->
   ks = [] /\ ps s2 = ps s1 /\ tasks s2 = tasks s1 /\ lastt s2 = lastt s1 /\ ntask s2 = ntask s1 /\
-  hopen s2 = hopen s1 /\ hsI s2 = hsI s1.
+  hopen s2 = hopen s1 /\ hsI s2 = hsI s1 /\ hsink s2 = hsink s1.
 Proof.
   induction 1 as [|e t He _ IH]; intros s1 s2 l ks; cbn.
   - intros H; inversion H; subst. repeat split; auto.
@@ -251,22 +251,30 @@ Proof.
   induction l as [|a l IH]; cbn; auto. intros H. rewrite (H a) by auto. apply IH; auto.
 Qed.
 
+(* the handle's sink table follows the gate: a stored sink is the one of the newest task of the peer *)
+Definition KInv (s : st) : Prop :=
+  forall p k, hsink s p = Some k -> hopen s p = true /\ lastt s p = Some k.
+
+Lemma AInv_hsink s h p v : AInv s h -> AInv (set_hsink s p v) h.
+Proof. intros [A1 A2 A3 A4 A5 A6]. constructor; auto. Qed.
+
 Lemma step_of_quiet c s o h s1 ev calls s' ev' calls' :
-  AInv s h -> (forall q, In q (notifs_of s o) -> h q = true) ->
+  AInv s h -> KInv s -> (forall q, In q (notifs_of s o) -> h q = true) ->
   main_handler c s o = Some (s1, ev, calls) -> quiet s (Some (s1, ev, calls)) ->
-  step c s o = Some (s', ev', calls') -> grammar h ev' = Some h /\ AInv s' h.
+  step c s o = Some (s', ev', calls') -> grammar h ev' = Some h /\ AInv s' h /\ KInv s'.
 Proof.
-  intros A NF M Q. unfold step. rewrite M.
+  intros A KI NF M Q. unfold step. rewrite M. pose proof (hsink_main _ _ _ _ _ _ M) as HS.
   destruct Q as (T & L & N0 & HO & SO & F).
   destruct (drain s1 ev) as [[s2 dr] ks] eqn:D.
-  destruct (drain_quiet s ev F _ _ _ _ D) as (-> & P2 & T2 & L2 & N2 & HO2 & _).
+  destruct (drain_quiet s ev F _ _ _ _ D) as (-> & P2 & T2 & L2 & N2 & HO2 & _ & HS2).
   rewrite filter_all by (intros q Hq; rewrite HO2, HO; destruct A as [_ _ _ _ _ A6]; rewrite A6; auto).
   cbn [kill_tasks app drain].
   intros H; inversion H; subst. rewrite app_nil_r.
-  split.
+  split; [|split].
   - rewrite grammar_app. erewrite grammar_quiet; eauto; [|apply A]. now apply grammar_notifs.
   - eapply AInv_quiet; eauto; try congruence.
     intros q k. rewrite P2. apply SO.
+  - intros q k Hq. rewrite HS2, HS in Hq. rewrite HO2, HO, L2, L. apply KI, Hq.
 Qed.
 
 (* ---- a step that ends the open stream of p ---- *)
@@ -304,17 +312,28 @@ Proof.
 Qed.
 
 Lemma step_of_closes c s o h p s1 calls s' ev' calls' :
-  AInv s h -> (forall q, In q (notifs_of s o) -> q = p) ->
+  AInv s h -> KInv s -> (forall q, In q (notifs_of s o) -> q = p) ->
   main_handler c s o = Some (s1, [UClosed p], calls) -> closes s p s1 ->
   step c s o = Some (s', ev', calls') ->
-  grammar h ev' = Some (upd h p false) /\ AInv s' (upd h p false).
+  grammar h ev' = Some (upd h p false) /\ AInv s' (upd h p false) /\ KInv s'.
 Proof.
-  intros A NF M C. unfold step. rewrite M.
+  intros A KI NF M C. unfold step. rewrite M. pose proof (hsink_main _ _ _ _ _ _ M) as HS.
   destruct (AInv_closes s h p s1 A C) as (A' & Hh & (k & Lk & Rk) & HO).
-  cbn [drain]. rewrite HO, Lk, Rk.
+  destruct C as (k0 & _ & _ & L1 & _ & HO1 & _).
+  assert (KL : match hsink s1 p with
+               | Some k1 => if running s1 k1 && negb (match usink s1 p with Some k' => k' =? k1 | None => false end)
+                            then [k1] else []
+               | None => []
+               end = []).
+  { destruct (hsink s1 p) as [k1|] eqn:E; auto. rewrite HS in E. destruct (KI p k1 E) as [_ E2].
+    rewrite <- L1, Lk in E2. injection E2 as <-. rewrite Rk. reflexivity. }
+  cbn [drain]. rewrite KL.
   rewrite filter_none by (intros q Hq; apply NF in Hq; subst q; setters; apply upd_same).
   cbn [map app kill_tasks drain].
-  intros H; inversion H; subst. cbn [app grammar]. rewrite Hh. auto.
+  intros H; inversion H; subst. cbn [app grammar]. rewrite Hh. split; auto. split.
+  - apply AInv_hsink. exact A'.
+  - intros q k1 Hq. setters. unfold upd in *. destruct (q =? p); [discriminate|].
+    rewrite HS in Hq. rewrite HO1, L1. apply KI, Hq.
 Qed.
 
 (* ---- a step that opens a stream to p ---- *)
@@ -357,14 +376,19 @@ Proof.
 Qed.
 
 Lemma step_of_opens c s o h p d s1 calls s' ev' calls' :
-  AInv s h -> notifs_of s o = [] -> main_handler c s o = Some (s1, [UOpened p d], calls) -> opens s p s1 ->
+  AInv s h -> KInv s -> notifs_of s o = [] -> main_handler c s o = Some (s1, [UOpened p d], calls) -> opens s p s1 ->
   step c s o = Some (s', ev', calls') ->
-  grammar h ev' = Some (upd h p true) /\ AInv s' (upd h p true).
+  grammar h ev' = Some (upd h p true) /\ AInv s' (upd h p true) /\ KInv s'.
 Proof.
-  intros A NF M C. unfold step. rewrite M, NF. cbn [filter map].
+  intros A KI NF M C. unfold step. rewrite M, NF. cbn [filter map]. pose proof (hsink_main _ _ _ _ _ _ M) as HS.
   destruct (AInv_opens s h p s1 A C) as (A' & Hh).
+  destruct C as (_ & _ & _ & L1 & _ & HO1 & _).
   cbn [drain app kill_tasks].
-  intros H; inversion H; subst. cbn [app grammar]. rewrite Hh. auto.
+  intros H; inversion H; subst. cbn [app grammar]. rewrite Hh. split; auto. split.
+  - apply AInv_hsink. exact A'.
+  - intros q k1 Hq. setters. unfold upd in *. destruct (q =? p) eqn:E.
+    + apply N.eqb_eq in E. subst q. split; auto.
+    + rewrite HS in Hq. rewrite HO1, L1, E. apply KI, Hq.
 Qed.
 
 Inductive shape (s : st) : res -> Prop :=
@@ -527,7 +551,7 @@ Qed.
 Lemma main_shape c s o h : AInv s h -> prompt_op o = true -> shape s (main_handler c s o).
 Proof.
   intros A PO. pose proof A as [A1 A2 A3 A4 A5 A6].
-  destruct o as [p|p|p|p|p|p|p b|p b|p a|p|p|p|p|p g|p|p|p|p|p g]; cbn [main_handler].
+  destruct o as [p|p|p|p|p|p|p b|p b|p a|p|p|p|p|p g|p|p|p|p|p g|p|p m|p m|p m|p m]; cbn [main_handler].
   - destruct (conn s p); [apply sh_quiet; quiet_tac|].
     apply shape_of_quiet. eapply quiet_frame; [|apply quiet_on_established]. repeat split.
   - destruct (conn s p); [|apply sh_quiet; quiet_tac].
@@ -561,6 +585,11 @@ Proof.
   - discriminate.
   - apply sh_quiet. quiet_tac.
   - cbn in PO. destruct g; [discriminate|]. eapply shape_task_die; eauto.
+  - destruct (usink s p), (hsink s p); apply sh_quiet; quiet_tac.
+  - apply sh_quiet. quiet_tac.
+  - apply sh_quiet. quiet_tac.
+  - apply sh_quiet. quiet_tac.
+  - apply sh_quiet. quiet_tac.
 Qed.
 
 Lemma notifs_facts s h o q : AInv s h -> In q (notifs_of s o) -> q = op_peer o /\ h q = true.
@@ -578,10 +607,10 @@ Proof.
 Qed.
 
 Lemma step_inv c s o h s' ev calls :
-  AInv s h -> prompt_op o = true -> step c s o = Some (s', ev, calls) ->
-  exists h', grammar h ev = Some h' /\ AInv s' h'.
+  AInv s h -> KInv s -> prompt_op o = true -> step c s o = Some (s', ev, calls) ->
+  exists h', grammar h ev = Some h' /\ AInv s' h' /\ KInv s'.
 Proof.
-  intros A PO S. pose proof (main_shape c s o h A PO) as Sh.
+  intros A KI PO S. pose proof (main_shape c s o h A PO) as Sh.
   destruct (main_handler c s o) as [[[s1 ev1] cl1]|] eqn:M.
   - inversion Sh; subst.
     + exists h. eapply step_of_quiet; eauto. intros q Hq. eapply notifs_facts; eauto.
@@ -599,19 +628,22 @@ Proof.
   - unfold step in S. rewrite M in S. discriminate.
 Qed.
 
+Lemma KInv_init : KInv init.
+Proof. intros p k H. discriminate H. Qed.
+
 Definition events (r : list (st * list uev * list call)) : list uev :=
   flat_map (fun x => snd (fst x)) r.
 
 Lemma run_grammar c ops : forall s h,
-  AInv s h -> forallb prompt_op ops = true ->
+  AInv s h -> KInv s -> forallb prompt_op ops = true ->
   exists h', grammar h (events (fst (run c s ops))) = Some h'.
 Proof.
-  induction ops as [|o t IH]; intros s h A P; cbn [run fst events flat_map].
+  induction ops as [|o t IH]; intros s h A KI P; cbn [run fst events flat_map].
   - exists h. reflexivity.
   - cbn in P. apply andb_true_iff in P. destruct P as [P1 P2].
     destruct (step c s o) as [[[s1 ev] calls]|] eqn:S.
-    + destruct (step_inv _ _ _ _ _ _ _ A P1 S) as (h1 & G1 & A1).
-      destruct (IH s1 h1 A1 P2) as (h2 & G2).
+    + destruct (step_inv _ _ _ _ _ _ _ A KI P1 S) as (h1 & G1 & A1 & K1).
+      destruct (IH s1 h1 A1 K1 P2) as (h2 & G2).
       destruct (run c s1 t) as [r b]. cbn [fst events flat_map snd] in *.
       exists h2. rewrite grammar_app, G1. exact G2.
     + exists h. reflexivity.
@@ -619,15 +651,15 @@ Qed.
 
 (* every reachable state of a prompt run satisfies the invariant: used for the corollaries *)
 Lemma run_inv c ops : forall s h,
-  AInv s h -> forallb prompt_op ops = true ->
-  forall x, In x (fst (run c s ops)) -> exists h', AInv (fst (fst x)) h'.
+  AInv s h -> KInv s -> forallb prompt_op ops = true ->
+  forall x, In x (fst (run c s ops)) -> exists h', AInv (fst (fst x)) h' /\ KInv (fst (fst x)).
 Proof.
-  induction ops as [|o t IH]; intros s h A P x; cbn [run fst].
+  induction ops as [|o t IH]; intros s h A KI P x; cbn [run fst].
   - intros [].
   - cbn in P. apply andb_true_iff in P. destruct P as [P1 P2].
     destruct (step c s o) as [[[s1 ev] calls]|] eqn:S; [|intros []].
-    destruct (step_inv _ _ _ _ _ _ _ A P1 S) as (h1 & G1 & A1).
-    specialize (IH s1 h1 A1 P2). destruct (run c s1 t) as [r b]. cbn [fst] in *.
+    destruct (step_inv _ _ _ _ _ _ _ A KI P1 S) as (h1 & G1 & A1 & K1).
+    specialize (IH s1 h1 A1 K1 P2). destruct (run c s1 t) as [r b]. cbn [fst] in *.
     intros [<-|H]; eauto.
 Qed.
 
@@ -672,7 +704,7 @@ Qed.
 Lemma main_opened c s o s1 ev cl p d :
   main_handler c s o = Some (s1, ev, cl) -> In (UOpened p d) ev -> accepted_in (ps s p) d.
 Proof.
-  destruct o as [q|q|q|q|q|q|q b|q b|q a|q|q|q|q|q g|q|q|q|q|q g]; cbn [main_handler]; intros M HIn.
+  destruct o as [q|q|q|q|q|q|q b|q b|q a|q|q|q|q|q g|q|q|q|q|q g|q|q m|q m|q m|q m]; cbn [main_handler]; intros M HIn.
   - destruct (conn s q); [inversion M; subst; destruct HIn|].
     exfalso. eapply quiet_no_opened; [|exact HIn]. rewrite <- M. apply quiet_on_established.
   - destruct (conn s q); [|inversion M; subst; destruct HIn].
@@ -732,6 +764,11 @@ Proof.
     destruct (find_task n (tasks s)) as [t|]; [|intros M; inversion M; subst; destruct HIn].
     destruct (t_closing t); [intros M; inversion M; subst; destruct HIn|].
     destruct (g || t_gated t); intros M; inversion M; subst; cbn in HIn; intuition discriminate.
+  - revert M. destruct (usink s q), (hsink s q); intros M; inversion M; subst; destruct HIn.
+  - inversion M; subst; destruct HIn.
+  - inversion M; subst; destruct HIn.
+  - inversion M; subst; destruct HIn.
+  - inversion M; subst; destruct HIn.
 Qed.
 
 Lemma task_dies_ev s k s' ev p d : task_dies s k = (s', ev) -> ~ In (UOpened p d) ev.
@@ -797,14 +834,14 @@ Qed.
 Lemma alternation_prompt c ops :
   forallb prompt_op ops = true ->
   exists h, grammar (fun _ => false) (events (fst (run c init ops))) = Some h.
-Proof. intros P. eapply run_grammar; eauto. apply AInv_init. Qed.
+Proof. intros P. eapply run_grammar; eauto. apply AInv_init. apply KInv_init. Qed.
 
 Lemma closed_on_disconnect_prompt c ops x p k s' ev calls :
   forallb prompt_op ops = true -> In x (fst (run c init ops)) ->
   conn (fst (fst x)) p = true -> ps (fst (fst x)) p = Some (Open k) ->
   step c (fst (fst x)) (ConnClosed p) = Some (s', ev, calls) -> In (UClosed p) ev.
 Proof.
-  intros P HIn C Hp S. destruct (run_inv c ops init _ AInv_init P x HIn) as (h & A).
+  intros P HIn C Hp S. destruct (run_inv c ops init _ AInv_init KInv_init P x HIn) as (h & A & _).
   eapply step_conn_closed; eauto.
 Qed.
 
@@ -813,7 +850,7 @@ Lemma closed_on_user_close_prompt c ops x p k s' ev calls :
   ps (fst (fst x)) p = Some (Open k) ->
   step c (fst (fst x)) (CmdClose p) = Some (s', ev, calls) -> In (UClosed p) ev.
 Proof.
-  intros P HIn Hp S. destruct (run_inv c ops init _ AInv_init P x HIn) as (h & A).
+  intros P HIn Hp S. destruct (run_inv c ops init _ AInv_init KInv_init P x HIn) as (h & A & _).
   eapply step_cmd_close; eauto.
 Qed.
 
